@@ -30,6 +30,7 @@ func main() {
 	}
 	ctx.Assume("protocol-respecting histories only: Listen when the in port is open and no listener is active, in.Close only without active listener, stop functions of the current listener only (DESIGN.md appendix C)")
 	ctx.Jobs("lifecycle", 1, func(int) { lifecycle() })
+	ctx.Jobs("litmus", 1, func(int) { litmus() })
 	scs := scenarios()
 	bound := -1
 	if !ctx.Thorough() {
@@ -39,8 +40,22 @@ func main() {
 		fmt.Sscanf(os.Getenv("VERIF_SCHED_BOUND"), "%d", &bound)
 	}
 	ctx.Jobs("sched", len(scs), func(j int) { exploreScenario(scs[j], bound, 3_000_000, nil) })
+	if !ctx.IsChild() {
+		racePass()
+	}
 	ctx.Set("traces_validated_against_impl", ctx.GetInt("transitions"))
+	if bound < 0 {
+		ctx.Set("preemption_bound", "none")
+	} else {
+		ctx.Set("preemption_bound", bound)
+	}
+	ctx.Set("race_pass", map[string]interface{}{"exhaustive": false, "histories_run": ctx.GetInt("race_pass_histories"), "histories_enumerated": ctx.GetInt("race_pass_histories_enumerated"),
+		"runs": ctx.GetInt("race_pass_runs"), "note": "free-running executions of the unmodified driver under the Go race detector: sampled schedules, a complement to the exhaustive exploration"})
 	ctx.Sample(map[string]interface{}{"history": []string{"out.Open", "midi.ListenTo", "Send(note)", "stop()", "Send(note)", "midi.ListenTo", "Send(note)"}, "expect": "delivered to listener 1, dropped, delivered to listener 2"})
-	ctx.NontrivialN(ctx.GetInt("lifecycle_states"))
-	ctx.Finish("(a) BFS over 10 life-cycle operations on the in-memory driver to the fixpoint, state = model state x reflected driver state")
+	ctx.Sample(map[string]interface{}{"scenario": "S2-stop-relisten", "threads": "harness, reader goroutine, control goroutine, helper process", "expect": "no call-back of listener 1 after stop 1 returned; a line written after Listen 2 reaches listener 2; every call returns"})
+	ctx.NontrivialN(ctx.GetInt("lifecycle_states") + ctx.GetInt("hb_states"))
+	ctx.Guard(ctx.GetInt("hb_states") > 1000, "scheduler explored suspiciously few states: %d", ctx.GetInt("hb_states"))
+	ctx.Guard(ctx.GetInt("distinct_outcomes") >= 8, "scheduler produced too few distinct outcomes: %d", ctx.GetInt("distinct_outcomes"))
+	ctx.Guard(ctx.GetInt("litmus_programs") == 9, "litmus programs did not run")
+	ctx.Finish("(a) BFS over 10 life-cycle operations on the in-memory driver to the fixpoint (state = model state x reflected driver state); (b) six scenario harnesses on the process-backed driver rewritten onto the scheduler shim: every interleaving (thorough: no preemption bound; quick: preemption bound 2) with happens-before state caching; (c) race detector pass on the unmodified driver (sampled); non-trivial = distinct life-cycle states plus distinct happens-before states")
 }
